@@ -211,6 +211,11 @@ theorem gyMatch_slots {p r : Party} {y : Id} {b : Bool}
           | none => ({ p with gy := some y }, false)) = (r, b)) : r.slots = p.slots := by
   cases hg : p.gy <;> simp only [hg, Prod.mk.injEq] at h <;> rw [← h.1]
 
+theorem calc_slots {p q : Party} {oi : Option Nat} {a b : Nat} (hx : p.calcDataKeys a b = (q, oi))
+    (hs : SlotInv p.slots) : SlotInv q.slots := by
+  have := (keeps_calc p a b).slots hs
+  rw [hx] at this; exact this
+
 /-- **every `Receive` keeps the slot invariant**, whatever arrives -/
 theorem slotInv_recv (p : Party) (i : In) (hs : SlotInv p.slots) :
     ∀ p' o, p.recv i = .ok (p', o) → SlotInv p'.slots := by
@@ -262,14 +267,14 @@ theorem slotInv_recv (p : Party) (i : In) (hs : SlotInv p.slots) :
   case case37 =>
     rename_i q hx
     simp only [R.ok.injEq, Prod.mk.injEq] at hr; obtain ⟨rfl, _⟩ := hr
-    have := (keeps_calc p _ _).slots hs; rw [hx] at this; exact this
+    exact calc_slots hx hs
   case case38 =>
     rename_i q i hx
     simp only [R.ok.injEq, Prod.mk.injEq] at hr; obtain ⟨rfl, _⟩ := hr
-    have := (keeps_calc p _ _).slots hs; rw [hx] at this; exact this
+    exact calc_slots hx hs
   case case39 =>
     rename_i q i hx s d _
-    have hq := (keeps_calc p _ _).slots hs; rw [hx] at hq
+    have hq := calc_slots hx hs
     obtain ⟨q', o', h, hk⟩ := acceptData_ok q i d hq
     rw [h] at hr
     simp only [R.ok.injEq, Prod.mk.injEq] at hr; obtain ⟨rfl, _⟩ := hr
@@ -277,6 +282,6 @@ theorem slotInv_recv (p : Party) (i : In) (hs : SlotInv p.slots) :
   case case40 =>
     rename_i q i hx s d _
     simp only [R.ok.injEq, Prod.mk.injEq] at hr; obtain ⟨rfl, _⟩ := hr
-    have := (keeps_calc p _ _).slots hs; rw [hx] at this; exact this
+    exact calc_slots hx hs
 
 end XC.C47
